@@ -2,7 +2,7 @@
    ExtrOcamlBasic only: bool, option, unit, list, prod, sumbool, sumor map to OCaml's own
    types; Z, positive, N, nat and Flocq's binary_float stay the Coq datatypes. *)
 From Coq Require Import ZArith List Extraction ExtrOcamlBasic.
-Require Import SZV.Base.Bytes SZV.Base.BitPack SZV.Base.CSem SZV.Gen.SrcFuns SZV.Model.Dims SZV.Model.Huffman SZV.Model.RW SZV.Model.H5Z SZV.Model.Transpose SZV.Model.Lossless SZV.Model.Conf SZV.Model.Header SZV.Model.Quant SZV.Model.QuantInt SZV.Base.FloatOps SZV.Model.InlineUnpack SZV.Model.QuantFloat SZV.Model.QuantFloat2 SZV.Model.Api SZV.Model.TimeStep SZV.Model.TimeStepFloat SZV.Model.Threads SZV.Model.Ledger.
+Require Import SZV.Base.Bytes SZV.Base.BitPack SZV.Base.CSem SZV.Gen.SrcFuns SZV.Model.Dims SZV.Model.Huffman SZV.Model.RW SZV.Model.H5Z SZV.Model.Transpose SZV.Model.Lossless SZV.Model.Conf SZV.Model.Header SZV.Model.Quant SZV.Model.QuantInt SZV.Base.FloatOps SZV.Model.InlineUnpack SZV.Model.QuantFloat SZV.Model.QuantFloat2 SZV.Model.QuantFloat3 SZV.Model.Api SZV.Model.TimeStep SZV.Model.TimeStepFloat SZV.Model.Threads SZV.Model.Ledger.
 Extraction Blacklist List String Int.
 Extraction "../ocaml/gen/szm.ml"
   to_be from_be to_signed to_unsigned fp_to_bytes bytes_to_fp size_to_bytes bytes_to_size
@@ -18,7 +18,7 @@ Extraction "../ocaml/gen/szm.ml"
   read_conf init_params state_fields to_conf
   get_metadata encode_params force all_written
   recon_array ity_of
-  frun1 drun1 frun2
+  frun1 drun1 frun2 frun3
   hist_exes
   ts_run_f ts_run_d ts_out_f ts_out_d resolve
   run_threads
